@@ -403,42 +403,46 @@ def r4(fx):
              fx.forest.mod('cli'), where='cli (module level)', got=(okl, okg), want=(True, True))
 
 
-@rule('C12', 'R5', 5, 'sequence: files name-NN-MM.ext from the parts of the name (no format template), index from 1, options forwarded')
+class _QRStub:
+    _model = ('save',)
+
+    def __init__(self, log, k):
+        self.log, self.k = log, k
+
+    def save(self, out, kind=None, **kw):
+        self.log.append((self.k, out, kind, kw))
+
+
+@rule('C12', 'R5', 12, 'sequence: files <stem>-<total:02d>-<index:02d><.ext> built from the parts of the name (never used as a format template), index from 1, kind and options forwarded; one symbol or a stream: unchanged')
 def r5(fx):
     fn = fx.fn('__init__', 'QRCodeSequence.save')
-    # no str.format / % formatting whose receiver derives from `out`
-    tainted = []
-    for n in ast.walk(fn):
-        if isinstance(n, ast.Call) and isinstance(n.func, ast.Attribute) and n.func.attr in ('format', 'format_map'):
-            recv = n.func.value
-            if not isinstance(recv, ast.Constant):
-                tainted.append(ast.unparse(n))
-        if isinstance(n, ast.BinOp) and isinstance(n.op, ast.Mod) and not isinstance(n.left, ast.Constant):
-            tainted.append(ast.unparse(n))
-    yield ob('the file name is never used as a format template', not tainted, fn, got=tainted, want=[])
-    lam = [n for n in ast.walk(fn) if isinstance(n, ast.Lambda)]
-    need(len(lam) == 2, 'QRCodeSequence.save: two filename lambdas expected')
     it = Interp()
     genv = callable_env(fx.forest, '__init__', it)
-    outs = []
-    for name in ('a.svg', 'dir.v1/na{0}me.b.png', 'x{}.txt', '%s.pdf'):
-        dot = name.rfind('.')
-        f = ev.ev(lam[1], dict(genv, dot_idx=dot, m=3))
-        outs.append((name, f(name, 2)))
-    want = [('a.svg', 'a-03-02.svg'), ('dir.v1/na{0}me.b.png', 'dir.v1/na{0}me.b-03-02.png'), ('x{}.txt', 'x{}-03-02.txt'), ('%s.pdf', '%s-03-02.pdf')]
-    yield ob('numbered name = <stem>-<total:02d>-<index:02d><.ext>', outs == want, lam[1], got=outs, want=want)
-    ident = ev.ev(lam[0], genv)
-    yield ob('single symbol / stream: name unchanged', ident('x.svg', 1) == 'x.svg', lam[0], got=ident('x.svg', 1), want='x.svg')
-    loop = single([s for s in fn.body if isinstance(s, ast.For)], 'loop in QRCodeSequence.save')
-    ok = pat.match(loop.iter, 'enumerate(self, start=1)') is not None and ast.unparse(loop.target) in ('(n, qrcode)', 'n, qrcode') \
-        and pat.match(loop.body[0], 'qrcode.save(filename(out, n), kind=kind, **kw)', mode='stmt') is not None
-    yield ob('every symbol is saved with index from 1 and the same kind / options', ok, loop, got=ast.unparse(loop)[:120],
-             want='for n, qrcode in enumerate(self, start=1): qrcode.save(filename(out, n), kind=kind, **kw)')
-    cond = [s for s in fn.body if isinstance(s, ast.If)]
-    c = single(cond, 'condition in QRCodeSequence.save')
-    yield ob('numbering only for more than one symbol and a file name with a dot', nf.same(c.test, 'm > 1 and isinstance(out, str)')
-             and any(pat.match(s, "dot_idx = out.rfind('.')", mode='stmt') is not None for s in c.body), c, got=ast.unparse(c.test),
-             want="m > 1 and isinstance(out, str); dot_idx = out.rfind('.')")
+    f = FuncVal(fn, genv, it)
+    stream = object()
+    cases = [(3, 'a.svg', ['a-03-01.svg', 'a-03-02.svg', 'a-03-03.svg']),
+             (2, 'dir.v1/na{0}me.b.png', ['dir.v1/na{0}me.b-02-01.png', 'dir.v1/na{0}me.b-02-02.png']),
+             (2, 'x{}.txt', ['x{}-02-01.txt', 'x{}-02-02.txt']), (2, '%s.pdf', ['%s-02-01.pdf', '%s-02-02.pdf']),
+             (2, '{o}{n}{m}{dot_idx}.eps', ['{o}{n}{m}{dot_idx}-02-01.eps', '{o}{n}{m}{dot_idx}-02-02.eps']),
+             (12, 'seq.png', [f'seq-12-{k:02d}.png' for k in range(1, 13)]),
+             (1, 'single.svg', ['single.svg']), (1, 'x{}.txt', ['x{}.txt']),
+             (2, 'noextension', ['noextension', 'noextension']), (3, stream, [stream] * 3), (1, stream, [stream])]
+    for n, out, want in cases:
+        log = []
+        seq = tuple(_QRStub(log, k) for k in range(n))
+        try:
+            f(seq, out, kind='png', scale=3, dark='red')
+            got = [x[1] for x in log]
+            rest = [(x[0], x[2], x[3]) for x in log]
+        except PyRaise as ex:
+            got, rest = f'raises {ex.name}', []
+        ok = got == want and rest == [(k, 'png', {'scale': 3, 'dark': 'red'}) for k in range(n)]
+        yield ob(f'{n} symbol(s) saved to {out if isinstance(out, str) else "<stream>"!r}', ok, fn, got=(got if got != want else 'the expected names', rest[:1]),
+                 want=want[:3] if isinstance(out, str) else 'the stream itself, every time')
+    log = []
+    f(tuple(_QRStub(log, k) for k in range(2)), 'a.svg')
+    yield ob('kind defaults to None (taken from the extension by QRCode.save), no option invented', [(x[2], x[3]) for x in log] == [(None, {}), (None, {})], fn,
+             got=[(x[2], x[3]) for x in log], want=[(None, {})] * 2)
 
 
 @rule('C12', 'R6', 2, 'CLI without --output prints QRCode.terminal(border, compact); with --output saves build_config(...)')
